@@ -575,3 +575,14 @@ func c12EqualsBoundDefect(os, ws []cty.Value) bool {
 	}
 	return hit
 }
+
+// exported stdlib function -> name of its model in lean/CtyModel/Stdlib/Funcs.lean (byName)
+var c12Modelled = map[string]string{
+	"LengthFunc": "length", "HasIndexFunc": "hasindex", "IndexFunc": "index", "ElementFunc": "element",
+	"CoalesceListFunc": "coalescelist", "CoalesceFunc": "coalesce", "CompactFunc": "compact", "ContainsFunc": "contains",
+	"DistinctFunc": "distinct", "ChunklistFunc": "chunklist", "FlattenFunc": "flatten", "KeysFunc": "keys", "ValuesFunc": "values",
+	"LookupFunc": "lookup", "MergeFunc": "merge", "ReverseListFunc": "reverse", "SliceFunc": "slice", "ZipmapFunc": "zipmap",
+	"SortFunc": "sort", "SetProductFunc": "setproduct", "ConcatFunc": "concat", "RangeFunc": "range",
+	"SetHasElementFunc": "sethaselement", "SetUnionFunc": "setunion", "SetIntersectionFunc": "setintersection",
+	"SetSubtractFunc": "setsubtract", "SetSymmetricDifferenceFunc": "setsymmetricdifference",
+}
